@@ -47,19 +47,19 @@ Fixpoint itoa_loop (fuel : nat) (n : Z) (acc : bytes) : bytes :=
   end.
 Definition itoa (n : Z) : bytes := itoa_loop 20 n [].
 
-(* CSVDecoder.GenerateColumnName: the configured name ("c<i>" in the harness) below ncols, else prefix + i with the
-   default prefix "" (the harness does not set `prefix`) *)
-Definition csv_name (ncols i : Z) : bytes :=
-  if i <? ncols then 99%N :: itoa i else itoa i.
-Fixpoint jset_csv (m : jfields) (ncols i : Z) (row : list sx) : option jfields :=
+(* CSVDecoder.GenerateColumnName: the configured name ("c<i>" in the harness) below ncols, else prefix + i (the option
+   `prefix`, default "") *)
+Definition csv_name (prefix : bytes) (ncols i : Z) : bytes :=
+  if i <? ncols then 99%N :: itoa i else prefix ++ itoa i.
+Fixpoint jset_csv (m : jfields) (prefix : bytes) (ncols i : Z) (row : list sx) : option jfields :=
   match row with
   | [] => Some m
-  | SB f :: r => jset_csv (jset m (csv_name ncols i) f) ncols (i + 1) r
+  | SB f :: r => jset_csv (jset m (csv_name prefix ncols i) f) prefix ncols (i + 1) r
   | _ => None
   end.
 
 (* k = the scanner (1 postgres, 2 nginx, 3 rfc3164, 4 rfc5424, 5 csv), row = the fields of its model's (0 row) *)
-Definition tojson_fields (k ncols : Z) (row : sx) : option jfields :=
+Definition tojson_fields (k ncols : Z) (prefix : bytes) (row : sx) : option jfields :=
   match k, row with
   | 1, SL [SB time; SB pid; SB num; SB client; SB db; SB user; SB log] =>
       Some (jset_all [] [((nm [116;105;109;101] (* time *)), time); ((nm [112;105;100] (* pid *)), pid); ((nm [112;105;100;95;109;101;115;115;97;103;101;95;110;117;109;98;101;114] (* pid_message_number *)), num);
@@ -81,22 +81,25 @@ Definition tojson_fields (k ncols : Z) (row : sx) : option jfields :=
       jset_sd (jset_nonempty (jset_nonempty (jset_nonempty (jset_nonempty (jset_nonempty (jset_nonempty
                 (jset_nonempty m ((nm [112;114;111;116;111;95;118;101;114;115;105;111;110] (* proto_version *))) ver) ((nm [116;105;109;101;115;116;97;109;112] (* timestamp *))) ts) ((nm [104;111;115;116;110;97;109;101] (* hostname *))) host)
                 ((nm [97;112;112;95;110;97;109;101] (* app_name *))) app) ((nm [112;114;111;99;101;115;115;95;105;100] (* process_id *))) procid) ((nm [109;101;115;115;97;103;101;95;105;100] (* message_id *))) msgid) ((nm [109;101;115;115;97;103;101] (* message *))) msg) sd
-  | 5, SL fields => jset_csv [] ncols 0 fields
+  | 5, SL fields => jset_csv [] prefix ncols 0 fields
   | _, _ => None
   end.
 
 Definition sx_jfields (m : jfields) : sx := SL (map (fun kv => SL [SB (fst kv); snd kv]) m).
 
 (* the expected observable of one DecodeToJson call, from the scanner model's observable *)
-Definition tojson_expect (k ncols : Z) (scan_obs : sx) : option sx :=
+Definition tojson_expect (k ncols : Z) (prefix : bytes) (scan_obs : sx) : option sx :=
   match scan_obs with
   | SL [SZ 0; row] =>
-      match tojson_fields k ncols row with Some m => Some (SL [SZ 0; sx_jfields m]) | None => None end
+      match tojson_fields k ncols prefix row with Some m => Some (SL [SZ 0; sx_jfields m]) | None => None end
   | other => Some other                                   (* (1 e): the decoder's error; (2): the model panics *)
   end.
 
 Definition csv_ncols (k : Z) (item : sx) : Z :=
-  match k, item with 5, SL [_; SZ n; _; _] => n | _, _ => 0 end.
+  match k, item with 5, SL (_ :: SZ n :: _) => n | _, _ => 0 end.
+(* the optional fifth member of a csv case: the `prefix` option *)
+Definition csv_prefix (k : Z) (item : sx) : bytes :=
+  match k, item with 5, SL (_ :: _ :: _ :: _ :: SB p :: _) => p | _, _ => [] end.
 
 (* which = 30 + k: case = (item ...), every item a case of scanner k, decoded one after the other into ONE
    Root (reset with DecodeString("{}") before each, as Pipeline.In does with a pooled event);
@@ -107,7 +110,7 @@ Definition tojson_run (scan : Z -> sx -> option sx) (k : Z) (case obs : sx) : ve
   match case, obs with
   | SL items, SL os =>
       match opt_map (fun it => match scan k it with
-                               | Some m => tojson_expect k (csv_ncols k it) m
+                               | Some m => tojson_expect k (csv_ncols k it) (csv_prefix k it) m
                                | None => None end) items with
       | Some ms => if existsb is_bad_obs os then Violates (SL ms) else exact_verdict (SL ms) obs
       | None => BadCase
